@@ -536,4 +536,280 @@ theorem aexecF_unmentioned (known : Known) (f : Nat) :
       rw [if_neg (by omega), iht a (by omega), ihe a (by omega)]
       exact join_self
 
+
+/-! ### what the log says about allocations and frees (for every program, no hypothesis)
+
+`free f k` is only logged for a live allocation, `dfree f k` for a repeated delete.  The
+invariant below turns "no `dfree`, no `lost`, nothing owned at the end" into "every allocation is
+freed exactly once". -/
+
+structure LogInv (s : St) : Prop where
+  fresh : ∀ f k, Event.alloc f k ∈ s.log → k < s.next
+  freeAlloc : ∀ f k, Event.free f k ∈ s.log → Event.alloc f k ∈ s.log
+  owned : ∀ f k, s.ptr f = .owned k → Event.alloc f k ∈ s.log ∧ s.log.count (Event.free f k) = 0
+  once : ∀ f k, s.log.count (Event.free f k) ≤ 1
+  fate : ∀ f k, Event.alloc f k ∈ s.log →
+    s.ptr f = .owned k ∨ s.log.count (Event.free f k) = 1 ∨ Event.lost f k ∈ s.log
+
+theorem logInv_init : LogInv St.init := by
+  refine ⟨?_, ?_, ?_, ?_, ?_⟩ <;> intros <;> simp_all [St.init]
+
+/-- appending an event that is neither an allocation nor a free nor a loss changes nothing -/
+theorem LogInv.logNeutral {s : St} (h : LogInv s) (e : Event)
+    (ha : ∀ f k, e ≠ .alloc f k) (hf : ∀ f k, e ≠ .free f k) :
+    LogInv (s.logE e) := by
+  have hc : ∀ f k, (s.log ++ [e]).count (Event.free f k) = s.log.count (Event.free f k) := by
+    intro f k
+    rw [List.count_append]
+    have : [e].count (Event.free f k) = 0 := by
+      simp only [List.count_cons, List.count_nil]
+      have := hf f k
+      simp [this]
+    omega
+  refine ⟨?_, ?_, ?_, ?_, ?_⟩
+  · intro f k hm
+    simp only [St.logE, List.mem_append, List.mem_singleton] at hm
+    rcases hm with hm | hm
+    · exact h.fresh f k hm
+    · exact absurd hm.symm (ha f k)
+  · intro f k hm
+    simp only [St.logE, List.mem_append, List.mem_singleton] at hm ⊢
+    rcases hm with hm | hm
+    · exact Or.inl (h.freeAlloc f k hm)
+    · exact absurd hm.symm (hf f k)
+  · intro f k hp
+    have := h.owned f k hp
+    simp only [St.logE, List.mem_append]
+    exact ⟨Or.inl this.1, by rw [hc]; exact this.2⟩
+  · intro f k
+    simp only [St.logE]
+    rw [hc]; exact h.once f k
+  · intro f k hm
+    simp only [St.logE, List.mem_append, List.mem_singleton] at hm ⊢
+    rcases hm with hm | hm
+    · rcases h.fate f k hm with h1 | h1 | h1
+      · exact Or.inl h1
+      · exact Or.inr (Or.inl (by rw [hc]; exact h1))
+      · exact Or.inr (Or.inr (Or.inl h1))
+    · exact absurd hm.symm (ha f k)
+
+/-- overwriting field `g` (with null or a fresh allocation is done by the caller): after the
+`lost` bookkeeping the old allocation of `g`, if any, is accounted for -/
+theorem LogInv.overwrite {s : St} (h : LogInv s) (g : Nat) :
+    LogInv (s.overwrite g) ∧
+    (∀ k, Event.alloc g k ∈ (s.overwrite g).log →
+      (s.overwrite g).log.count (Event.free g k) = 1 ∨ Event.lost g k ∈ (s.overwrite g).log) := by
+  unfold St.overwrite
+  split
+  · rename_i k hk
+    have hi := h.logNeutral (Event.lost g k) (by intros; simp) (by intros; simp)
+    refine ⟨hi, ?_⟩
+    intro k' hm
+    rcases hi.fate g k' hm with h1 | h1 | h1
+    · simp only [St.logE] at h1
+      rw [hk] at h1
+      injection h1 with h1
+      subst h1
+      right; simp [St.logE]
+    · exact Or.inl h1
+    · exact Or.inr h1
+  · rename_i hne
+    refine ⟨h, ?_⟩
+    intro k hm
+    rcases h.fate g k hm with h1 | h1 | h1
+    · exact absurd h1 (hne k)
+    · exact Or.inl h1
+    · exact Or.inr h1
+
+theorem logInv_setNull {s : St} (h : LogInv s) (g : Nat) : LogInv ((s.overwrite g).setPtr g .null) := by
+  obtain ⟨hi, hg⟩ := h.overwrite g
+  refine ⟨hi.fresh, hi.freeAlloc, ?_, hi.once, ?_⟩
+  · intro f k hp
+    simp only [St.setPtr] at hp
+    split at hp
+    · cases hp
+    · exact hi.owned f k hp
+  · intro f k hm
+    simp only [St.setPtr] at hm ⊢
+    by_cases hf : f = g
+    · subst hf
+      simp only [if_true]
+      exact Or.inr (hg k hm)
+    · simp only [hf, if_false]
+      exact hi.fate f k hm
+
+theorem logInv_setNew {s : St} (h : LogInv s) (g : Nat) (env : Env) : LogInv (exec env (.setNew g) s) := by
+  obtain ⟨hi, hg⟩ := h.overwrite g
+  simp only [exec]
+  have hc : ∀ f k, ((s.overwrite g).log ++ [Event.alloc g (s.overwrite g).next]).count (Event.free f k)
+      = (s.overwrite g).log.count (Event.free f k) := by
+    intro f k
+    rw [List.count_append]
+    simp
+  have hnofree : ∀ f, (s.overwrite g).log.count (Event.free f (s.overwrite g).next) = 0 := by
+    intro f
+    rw [List.count_eq_zero]
+    intro hm
+    have := hi.fresh f _ (hi.freeAlloc f _ hm)
+    omega
+  refine ⟨?_, ?_, ?_, ?_, ?_⟩
+  · intro f k hm
+    simp only [List.mem_append, List.mem_singleton] at hm ⊢
+    rcases hm with hm | hm
+    · have := hi.fresh f k hm; omega
+    · injection hm with _ h2; omega
+  · intro f k hm
+    simp only [List.mem_append, List.mem_singleton] at hm ⊢
+    rcases hm with hm | hm
+    · exact Or.inl (hi.freeAlloc f k hm)
+    · cases hm
+  · intro f k hp
+    simp only [St.setPtr] at hp ⊢
+    split at hp
+    · rename_i hf
+      injection hp with hp
+      subst hp; subst hf
+      exact ⟨by simp, by rw [hc]; exact hnofree f⟩
+    · have := hi.owned f k hp
+      exact ⟨by simp [this.1], by rw [hc]; exact this.2⟩
+  · intro f k
+    show (_ : List Event).count _ ≤ 1
+    rw [hc]; exact hi.once f k
+  · intro f k hm
+    simp only [St.setPtr, List.mem_append, List.mem_singleton] at hm ⊢
+    rw [hc]
+    by_cases hf : f = g
+    · subst hf
+      simp only [if_true]
+      rcases hm with hm | hm
+      · rcases hg k hm with h1 | h1
+        · exact Or.inr (Or.inl h1)
+        · exact Or.inr (Or.inr (Or.inl h1))
+      · injection hm with _ h2
+        subst h2
+        exact Or.inl rfl
+    · simp only [hf, if_false]
+      rcases hm with hm | hm
+      · rcases hi.fate f k hm with h1 | h1 | h1
+        · exact Or.inl h1
+        · exact Or.inr (Or.inl h1)
+        · exact Or.inr (Or.inr (Or.inl h1))
+      · injection hm with h1 _
+        exact absurd h1 hf
+
+theorem logInv_del {s : St} (h : LogInv s) (g : Nat) (env : Env) : LogInv (exec env (.del g) s) := by
+  simp only [exec]
+  cases hp : s.ptr g with
+  | uninit => exact h.logNeutral _ (by intros; simp) (by intros; simp)
+  | null => exact h.logNeutral _ (by intros; simp) (by intros; simp)
+  | freed k => exact h.logNeutral _ (by intros; simp) (by intros; simp)
+  | owned k =>
+    simp only
+    have hown := h.owned g k hp
+    have hc : ∀ f k', (s.log ++ [Event.free g k]).count (Event.free f k') =
+        s.log.count (Event.free f k') + (if f = g ∧ k' = k then 1 else 0) := by
+      intro f k'
+      rw [List.count_append]
+      congr 1
+      by_cases hfk : f = g ∧ k' = k
+      · obtain ⟨rfl, rfl⟩ := hfk; simp
+      · simp only [hfk, if_false]
+        rw [List.count_eq_zero]
+        simp only [List.mem_singleton]
+        intro hm
+        injection hm with h1 h2
+        exact hfk ⟨h1, h2⟩
+    refine ⟨?_, ?_, ?_, ?_, ?_⟩
+    · intro f k' hm
+      simp only [St.logE, St.setPtr, List.mem_append, List.mem_singleton] at hm ⊢
+      rcases hm with hm | hm
+      · exact h.fresh f k' hm
+      · cases hm
+    · intro f k' hm
+      simp only [St.logE, St.setPtr, List.mem_append, List.mem_singleton] at hm ⊢
+      rcases hm with hm | hm
+      · exact Or.inl (h.freeAlloc f k' hm)
+      · injection hm with h1 h2
+        subst h1; subst h2
+        exact Or.inl hown.1
+    · intro f k' hp'
+      simp only [St.logE, St.setPtr] at hp' ⊢
+      split at hp'
+      · cases hp'
+      · rename_i hf
+        have := h.owned f k' hp'
+        refine ⟨by simp [this.1], ?_⟩
+        rw [hc]
+        simp [hf, this.2]
+    · intro f k'
+      simp only [St.logE, St.setPtr]
+      rw [hc]
+      by_cases hfk : f = g ∧ k' = k
+      · obtain ⟨rfl, rfl⟩ := hfk
+        simp [hown.2]
+      · simp only [hfk, if_false]
+        exact h.once f k'
+    · intro f k' hm
+      simp only [St.logE, St.setPtr, List.mem_append, List.mem_singleton] at hm ⊢
+      rw [hc]
+      rcases hm with hm | hm
+      · by_cases hf : f = g
+        · subst hf
+          simp only [if_true]
+          rcases h.fate f k' hm with h1 | h1 | h1
+          · rw [hp] at h1
+            injection h1 with h1
+            subst h1
+            exact Or.inr (Or.inl (by simp [hown.2]))
+          · have hne : k' ≠ k := by
+              intro hk; subst hk; omega
+            exact Or.inr (Or.inl (by simp [hne, h1]))
+          · exact Or.inr (Or.inr (Or.inl h1))
+        · simp only [hf, if_false, false_and]
+          rcases h.fate f k' hm with h1 | h1 | h1
+          · exact Or.inl h1
+          · exact Or.inr (Or.inl (by simpa using h1))
+          · exact Or.inr (Or.inr (Or.inl h1))
+      · cases hm
+
+theorem logInv_use {s : St} (h : LogInv s) (g : Nat) (env : Env) : LogInv (exec env (.use g) s) := by
+  simp only [exec]
+  cases hp : s.ptr g with
+  | uninit => exact h.logNeutral _ (by intros; simp) (by intros; simp)
+  | null => exact h.logNeutral _ (by intros; simp) (by intros; simp)
+  | freed k => exact h.logNeutral _ (by intros; simp) (by intros; simp)
+  | owned k => exact h
+
+theorem logInv_evalCond {s : St} (h : LogInv s) (c : Cond) (env : Env) : LogInv (evalCond env c s).1 := by
+  cases c with
+  | opt o => exact h
+  | nonNull g =>
+    simp only [evalCond]
+    split
+    · exact h.logNeutral _ (by intros; simp) (by intros; simp)
+    · exact h
+    · exact h
+  | isNull g =>
+    simp only [evalCond]
+    split
+    · exact h.logNeutral _ (by intros; simp) (by intros; simp)
+    · exact h
+    · exact h
+
+theorem logInv_exec (env : Env) : ∀ (st : Stmt) (s : St), LogInv s → LogInv (exec env st s) := by
+  intro st
+  induction st with
+  | skip => intro s h; exact h
+  | setNull g => intro s h; exact logInv_setNull h g
+  | setNew g => intro s h; exact logInv_setNew h g env
+  | del g => intro s h; exact logInv_del h g env
+  | use g => intro s h; exact logInv_use h g env
+  | seq x y ihx ihy => intro s h; exact ihy _ (ihx _ h)
+  | ite c t e iht ihe =>
+    intro s h
+    simp only [exec]
+    split
+    · exact iht _ (logInv_evalCond h c env)
+    · exact ihe _ (logInv_evalCond h c env)
+
 end CMacVerif.Lifecycle
